@@ -1401,7 +1401,16 @@ fn rewrite_float_lit(
     let symbol = token_lit.symbol.as_str();
     let suffix = token_lit.suffix.as_ref().map(|s| s.as_str());
 
-    let float_parts = parse_float_symbol(symbol).unwrap();
+    // An integer literal with a float suffix (`0b1f32`) arrives here as well: leave what cannot
+    // be read as a decimal float as it is written.
+    let Ok(float_parts) = parse_float_symbol(symbol) else {
+        return wrap_str(
+            context.snippet(span).to_owned(),
+            context.config.max_width(),
+            shape,
+        )
+        .max_width_error(shape.width, span);
+    };
     let FloatSymbolParts {
         integer_part,
         fractional_part,
